@@ -40,6 +40,10 @@ var emitterRuntime = common.FromHex("602036038060206000376000359060" + "00a100")
 // reverts if either EVM call fails.
 var forwarder2Runtime = common.FromHex("602035" + "80" + "6040600037" + "600060008260006000600035" + "5af1" + "15" + "603a57" + "80604001" + "803603" + "8082600037" + "600060008260006000600035" + "5af1" + "15" + "603a57" + "00" + "5b60006000fd")
 
+// two-target forwarder: calldata = target1 word | len1 word | target2 word | payload1 | payload2 (a staking call and a
+// governance call in one transaction: each system contract's event is preceded or followed by a foreign one).
+var forwarder3Runtime = common.FromHex("602035" + "80" + "6060600037" + "600060008260006000600035" + "5af1" + "15" + "603a57" + "80606001" + "803603" + "8082600037" + "600060008260006000604035" + "5af1" + "15" + "603a57" + "00" + "5b60006000fd")
+
 func initCode(runtime []byte) []byte {
 	n := byte(len(runtime))
 	return append([]byte{0x60, n, 0x60, 0x0c, 0x60, 0x00, 0x39, 0x60, n, 0x60, 0x00, 0xf3}, runtime...)
@@ -56,6 +60,7 @@ type Sys struct {
 	c        *world.Chain
 	fwd, emt common.Address
 	fwd2     common.Address
+	fwd3     common.Address
 	vals     []string // operator addresses
 	// reference model
 	del   map[string]int64  // "<delegator hex>/<validator index>" -> tokens
@@ -96,9 +101,14 @@ func New(cfg Config) *Sys {
 	s.fwd = crypto.CreateAddress(u1.Eth, nonce)
 	s.emt = crypto.CreateAddress(u1.Eth, nonce+1)
 	s.fwd2 = crypto.CreateAddress(u1.Eth, nonce+2)
-	r := s.w.Block(s.c, s.c.EthTxNonce(u1, nonce, nil, nil, initCode(forwarderRuntime)), s.c.EthTxNonce(u1, nonce+1, nil, nil, initCode(emitterRuntime)), s.c.EthTxNonce(u1, nonce+2, nil, nil, initCode(forwarder2Runtime)))
-	if !r[0].OK() || !r[1].OK() || !r[2].OK() {
-		panic("helper contract deployment failed: " + r[0].VMError + r[1].VMError + r[2].VMError)
+	s.fwd3 = crypto.CreateAddress(u1.Eth, nonce+3)
+	r := s.w.Block(s.c, s.c.EthTxNonce(u1, nonce, nil, nil, initCode(forwarderRuntime)), s.c.EthTxNonce(u1, nonce+1, nil, nil, initCode(emitterRuntime)), s.c.EthTxNonce(u1, nonce+2, nil, nil, initCode(forwarder2Runtime)),
+		s.c.EthTxNonce(u1, nonce+3, nil, nil, initCode(forwarder3Runtime)))
+	if !r[0].OK() || !r[1].OK() || !r[2].OK() || !r[3].OK() {
+		panic("helper contract deployment failed: " + r[0].VMError + r[1].VMError + r[2].VMError + r[3].VMError)
+	}
+	if rr := s.w.Block(s.c, s.c.CosmosTx(u1, banktypes.NewMsgSend(u1.Acc, sdk.AccAddress(s.fwd3.Bytes()), sdk.NewCoins(sdk.NewInt64Coin("stake", 1000))))); rr[0].Code != 0 {
+		panic("funding fwd3 failed: " + rr[0].Log)
 	}
 	// the double forwarder gets coins of its own (plain transfer: empty calldata reverts inside it, so fund it through the bank)
 	fund := banktypes.NewMsgSend(u1.Acc, sdk.AccAddress(s.fwd2.Bytes()), sdk.NewCoins(sdk.NewInt64Coin("stake", 1000)))
@@ -213,7 +223,7 @@ type obs struct {
 }
 
 func (s *Sys) actors() map[string]common.Address {
-	return map[string]common.Address{"u1": s.c.Accounts["u1"].Eth, "u2": s.c.Accounts["u2"].Eth, "fwd": s.fwd, "emt": s.emt, "fwd2": s.fwd2}
+	return map[string]common.Address{"u1": s.c.Accounts["u1"].Eth, "u2": s.c.Accounts["u2"].Eth, "fwd": s.fwd, "emt": s.emt, "fwd2": s.fwd2, "fwd3": s.fwd3}
 }
 
 func (s *Sys) observe() obs {
@@ -330,6 +340,13 @@ func (s *Sys) Apply(op string) (out, class string, viols []bfs.Viol) {
 		cd := append(common.LeftPadBytes(to.Bytes(), 32), common.LeftPadBytes(big.NewInt(int64(len(data))).Bytes(), 32)...)
 		cd = append(append(cd, data...), data2...)
 		tx = s.c.EthTx(user, &s.fwd2, nil, cd)
+	case "fwd3":
+		caller = s.fwd3
+		to2, data2 := s.payload(segs[1])
+		cd := append(common.LeftPadBytes(to.Bytes(), 32), common.LeftPadBytes(big.NewInt(int64(len(data))).Bytes(), 32)...)
+		cd = append(cd, common.LeftPadBytes(to2.Bytes(), 32)...)
+		cd = append(append(cd, data...), data2...)
+		tx = s.c.EthTx(user, &s.fwd3, nil, cd)
 	case "fake":
 		// the look-alike contract emits exactly the event the system contract would emit for this call by `user`
 		topic, evData := s.eventFor(segs[0], user.Eth)
